@@ -92,9 +92,23 @@ pub async fn run_acb_app_to_delta_models(
     let mut delta_results = HashMap::<Security, DeltaListResult>::new();
 
     for (sec, mut sec_txs) in txs_by_sec {
+        let sec_init_status =
+            all_init_status.get(&sec).map(|o| std::rc::Rc::new(o.clone()));
+
+        // An initial status means the default affiliate holds the security, whether
+        // or not it has a Tx of its own, so global splits apply to it as well.
+        let other_holders = if sec_init_status.is_some() {
+            vec![crate::portfolio::Affiliate::default()]
+        } else {
+            Vec::new()
+        };
+
         // An invalid combination of splits is an error of this security only.
         if let Err(e) =
-            crate::portfolio::splits::replace_global_security_splits(&mut sec_txs)
+            crate::portfolio::splits::replace_global_security_splits_with_holders(
+                &mut sec_txs,
+                &other_holders,
+            )
         {
             delta_results.insert(
                 sec,
@@ -102,9 +116,6 @@ pub async fn run_acb_app_to_delta_models(
             );
             continue;
         }
-
-        let sec_init_status =
-            all_init_status.get(&sec).map(|o| std::rc::Rc::new(o.clone()));
 
         let deltas_res = txs_to_delta_list(&sec_txs, sec_init_status);
         delta_results.insert(sec, deltas_res);
